@@ -17,14 +17,23 @@ def code(*a):
     return 0.5 + sum(x * w for x, w in zip(a, W))
 
 
+KEPT = (1.7, -2.0, 0.75)
+
+
 class Rec:
-    def __init__(self, vector=False):
+    def __init__(self, vector=False, keep=False):
         self.calls = []
         self.vector = vector
+        self.kept = None
+        if keep:
+            from raysect.core import Vector3D
+            self.kept = Vector3D(*KEPT)       # one retained object handed out at every call (like ConstantVector2D/3D)
 
     def __call__(self, *a):
         from raysect.core import Vector3D
         self.calls.append(tuple(float(x) for x in a))
+        if self.kept is not None:
+            return self.kept
         if self.vector:
             return Vector3D(1.5 + 0.1 * a[0], -2.0, 0.75)
         return code(*a)
@@ -48,7 +57,7 @@ def replay(rec, ctx):
     viol = []
 
     def bad(what, detail):
-        viol.append({"sig": f"{c['w']}{'.' + c['mapper'] if 'mapper' in c else ''}:{what}", "detail": f"{detail} | case {json.dumps(c)}"})
+        viol.append({"sig": f"{c['w']}{'.' + c['mapper'] if 'mapper' in c else ''}:{what}" + ("@after-another-evaluation" if c.get("prev") == "other" else ""), "detail": f"{detail} | case {json.dumps(c)}"})
 
     def pt(*names):
         return [c[n] / D for n in names]
@@ -84,7 +93,8 @@ def replay(rec, ctx):
         tok = c["token"]
         w = c["mapper"]
     vector = w.startswith("Vector")
-    r = Rec(vector)
+    keep = c.get("prev") == "other"
+    r = Rec(vector, keep)
     names = [n for n in ("x", "y", "z") if n in c]
     args = pt(*names)
     if token_xy is not None:
@@ -110,11 +120,21 @@ def replay(rec, ctx):
         f = _cls(w)(r, *[c[k] / D for k in ("p", "q", "s") if k in c])
     else:
         f = _cls(w)(r)
+    if keep:
+        # an earlier evaluation at another point (other toroidal angle, other period)
+        try:
+            f(*[(-0.4, -0.3, 0.9)[i] + 1.25 * i for i in range(len(args))])
+        except Exception as ex:       # noqa: BLE001
+            bad(f"raised-{type(ex).__name__}", repr(ex)[:200])
+            return viol
+        r.calls.clear()
     try:
         out = f(*args)
     except Exception as ex:       # noqa: BLE001
         bad(f"raised-{type(ex).__name__}", repr(ex)[:200])
         return viol
+    if keep and (r.kept.x, r.kept.y, r.kept.z) != KEPT:
+        bad("modifies-the-vector-the-wrapped-function-returned", f"{r.kept} vs {KEPT}")
     if len(r.calls) != 1:
         bad("inner-function-not-called-exactly-once", str(len(r.calls)))
         return viol
@@ -134,7 +154,7 @@ def replay(rec, ctx):
             bad("inner-argument-differs", f"received {got}, spec {wantf}")
             return viol
     # --- the result
-    inner_val = Rec(vector)(*got)
+    inner_val = Rec(vector, keep)(*got)
     post = e["post"]
     if post == "id":
         exp_out = inner_val
